@@ -3,6 +3,7 @@ package interp
 // gosym: strings/bytes/strconv/regexp over symbolic bytes.
 
 import (
+	"math"
 	"fmt"
 	"go/token"
 	"go/types"
@@ -268,6 +269,18 @@ func init() {
 			}
 		}
 		return nil
+	}
+	// assembly-backed math kernels, concrete operands only (symbolic floats never reach them in the anchored code)
+	for name, f := range map[string]func(float64) float64{"math.Floor": math.Floor, "math.archFloor": math.Floor, "math.Ceil": math.Ceil, "math.archCeil": math.Ceil,
+		"math.Trunc": math.Trunc, "math.archTrunc": math.Trunc, "math.Log2": math.Log2, "math.Log10": math.Log10, "math.Round": math.Round} {
+		f := f
+		ext(name, func(fr *frame, a []value) value {
+			x, ok := a[0].(float64)
+			if !ok {
+				unsupported("math kernel on a symbolic float")
+			}
+			return f(x)
+		})
 	}
 	ext("sort.Slice", sortSlice)
 	ext("sort.SliceStable", sortSlice)
